@@ -61,8 +61,8 @@ mut('m-c05-dfa-entry', 'C05', 'lomond/utf8validator.py', "    0xa, 0x3, 0x3, 0x3
 mut('m-c06-swapped-bits', 'C06', 'lomond/compression.py', '        decompress_wbits = cls.get_wbits(options, "server_max_window_bits")\n        compress_wbits = cls.get_wbits(options, "client_max_window_bits")\n',
     '        decompress_wbits = cls.get_wbits(options, "client_max_window_bits")\n        compress_wbits = cls.get_wbits(options, "server_max_window_bits")\n', 'server/client window bits swapped')
 mut('m-c06-no-reset-compress', 'C06', 'lomond/compression.py', "        if self.reset_compress:\n            self.reset_compressor()\n", "", 'client_no_context_takeover ignored')
-mut('m-c06-compress-false-ignored', 'C06', 'lomond/websocket.py', "        if compress and state.compression:\n            with state.compress_lock:\n                _payload = state.compression.compress(data)\n",
-    "        if state.compression:\n            with state.compress_lock:\n                _payload = state.compression.compress(data)\n", 'compress=False ignored for send_binary')
+mut('m-c06-compress-false-ignored', 'C06', 'lomond/websocket.py', "        if compress and state.compression:\n            with state.compress_lock:\n                if state.compressing:\n                    # Entered again on the thread that is in the middle\n                    # of a compressed send; messages can't be nested.\n                    raise errors.WebSocketBusy('send in progress')\n                state.compressing = True\n                try:\n                    _payload = state.compression.compress(data)\n",
+    "        if state.compression:\n            with state.compress_lock:\n                if state.compressing:\n                    # Entered again on the thread that is in the middle\n                    # of a compressed send; messages can't be nested.\n                    raise errors.WebSocketBusy('send in progress')\n                state.compressing = True\n                try:\n                    _payload = state.compression.compress(data)\n", 'compress=False ignored for send_binary')
 mut('m-c06-window-ignored', 'C06', 'lomond/compression.py', "            -max(9, self.compress_wbits)\n", "            -max(12, self.compress_wbits)\n", 'negotiated client window < 12 bits not honoured')
 # ---- C07
 mut('m-c07-poll-before-ready', 'C07', 'lomond/session.py', "            if self._ready:\n                return self._regular(\n", "            if self._ready or ping_timeout:\n                return self._regular(\n",
@@ -73,7 +73,7 @@ mut('m-c07-no-disconnected-after-closed', 'C07', 'lomond/session.py', "         
 mut('m-c08-echo-code', 'C08', 'lomond/websocket.py', "            self._close(state, message.code, message.reason)\n", "            self._close(state, message.code or Status.NORMAL, message.reason)\n", 'empty server Close echoed with code 1000')
 mut('m-c08-sends-during-closing-refused', 'C08', 'lomond/websocket.py', "            yield events.Closing(message.code, message.reason)\n            self._close(state, message.code, message.reason)\n",
     "            state.closing = message.code == 3000\n            yield events.Closing(message.code, message.reason)\n            state.closing = False\n            self._close(state, message.code, message.reason)\n", 'sends during Closing refused for one particular close code')
-mut('m-c08-graceful-wrong', 'C08', 'lomond/session.py', "                        if websocket.is_active:\n", "                        if websocket.is_active or websocket.sent_close_time == 0.0:\n",
+mut('m-c08-graceful-wrong', 'C08', 'lomond/session.py', "                        if not (state.closing or state.closed):\n", "                        if not (state.closing or state.closed) or state.sent_close_time == 0.0:\n",
     'server dropping after an echo made at session time 0 is reported non-graceful')
 # ---- C09
 mut('m-c09-recv-except-narrowed', 'C09', 'lomond/session.py', "        except socket.error as error:\n            log.debug('error in _recv', exc_info=True)\n", "        except socket.timeout as error:\n            log.debug('error in _recv', exc_info=True)\n",
@@ -90,8 +90,8 @@ mut('m-c10-accept-prefix', 'C10', 'lomond/websocket.py', "        if accept_head
 mut('m-c10-key-not-fresh', 'C10', 'lomond/websocket.py', "            self.key = b64encode(os.urandom(16))\n", "            self.key = b64encode(os.urandom(16)) if not hasattr(WebSocket, '_k') else WebSocket._k\n            WebSocket._k = self.key\n", 'handshake key reused across connections')
 mut('m-c10-maxbytes', 'C10', 'lomond/frame_parser.py', "                b\"\\r\\n\\r\\n\", max_bytes=16 * 1024\n", "                b\"\\r\\n\\r\\n\", max_bytes=64 * 1024\n", '16 KiB header bound raised to 64 KiB')
 # ---- C11 / C12
-mut('m-c11-no-compress-lock', 'C11', 'lomond/websocket.py', "            with state.compress_lock:\n                _payload = state.compression.compress(payload)\n",
-    "            if True:\n                _payload = state.compression.compress(payload)\n", 'compress+write of text no longer atomic')
+mut('m-c11-no-compress-lock', 'C11', 'lomond/websocket.py', "            with state.compress_lock:\n                if state.compressing:\n                    # Entered again on the thread that is in the middle\n                    # of a compressed send; messages can't be nested.\n                    raise errors.WebSocketBusy('send in progress')\n                state.compressing = True\n                try:\n                    _payload = state.compression.compress(payload)\n",
+    "            if True:\n                if False:\n                    # Entered again on the thread that is in the middle\n                    # of a compressed send; messages can't be nested.\n                    raise errors.WebSocketBusy('send in progress')\n                state.compressing = True\n                try:\n                    _payload = state.compression.compress(payload)\n", 'compress+write of text no longer atomic')
 mut('m-c11-write-lock-removed', 'C11', 'lomond/session.py', "        with self._lock:\n            if self._writing:\n",
     "        if True:\n            if self._writing:\n", 'write lock removed: frames can be torn')
 mut('m-c12-flag-after-write', 'C12', 'lomond/session.py', "            if closing:\n", "            if closing and False:\n", 'closing flag no longer set under the write lock (original check-then-act race)')
@@ -101,7 +101,7 @@ mut('m-c13-generatorexit-handler-removed', 'C13', 'lomond/websocket.py', "      
 # ---- C14
 mut('m-c14-pong-after-yield', 'C14', 'lomond/session.py', "                            self._on_event(event, auto_pong)\n                            yield event\n", "                            if event.name != 'ping':\n                                self._on_event(event, auto_pong)\n                            yield event\n                            if event.name == 'ping':\n                                self._on_event(event, auto_pong)\n",
     'automatic pong written after the Ping event was handed to the application')
-mut('m-c14-pong-truncated', 'C14', 'lomond/session.py', "            self.websocket.send_pong(event.data)\n", "            self.websocket.send_pong(event.data[:124])\n", 'pong payload truncated for 125-byte pings')
+mut('m-c14-pong-truncated', 'C14', 'lomond/session.py', "            self.send(Opcode.PONG, event.data)\n", "            self.send(Opcode.PONG, event.data[:124])\n", 'pong payload truncated for 125-byte pings')
 # ---- C15
 mut('m-c15-ping-timeout-ge', 'C15', 'lomond/session.py', "            if time_since_last_pong > ping_timeout:\n", "            if time_since_last_pong >= ping_timeout - 0.5:\n", 'Unresponsive up to 0.5 s early')
 mut('m-c15-close-timeout-from-ready', 'C15', 'lomond/session.py', "            if session_time >= sent_close_time + close_timeout:\n", "            if session_time >= close_timeout:\n", 'close timeout measured from Ready instead of from the Close')
@@ -129,7 +129,8 @@ REVERTS = {   # fix commit -> (finding, property whose check must report its rev
     'fbe7813': ('F16', 'C09'), 'ce9bb33': ('F17', 'C15'), '01ca613': ('F18', 'C08'), '24dd2c9': ('F19', 'C06'), '5562bdb': ('F20', 'C11'),
     '032a03a': ('F21', 'C05'), '6846ff6': ('F22', 'C02'), '3faf252': ('F23', 'C14'), '814a211': ('F24', 'C13'), 'ab372e5': ('F25', 'C10'),
     '99089b5': ('F26', 'C19'), 'baa994e': ('F28', 'C07'), '530f176': ('F29', 'C11'), '722a7e2': ('F30', 'C12'), '41d9a82': ('F31', 'C03'),
-    'a2e88b6': ('F32', 'C08'),
+    'a2e88b6': ('F32', 'C08'), '3e5faa7': ('F33', 'C06'),
+    'f9664fc': ('F35', 'C10'), '439e3c6': ('F36', 'C03'), 'aed9ae9': ('F37', 'C03'), '54f1b89': ('F38', 'C07'),
 }
 
 
